@@ -332,7 +332,12 @@ func Consensus(trees <-chan Trees, cutoff float64) (*Tree, error) {
 	// We take the bipartitions that are present in more than cutoff trees and less
 	// than or equal the number of trees
 	// And we add it to the startree
-	for _, bs := range edgeindex.Edges(int(cutoff*float64(nbtrees)), nbtrees) {
+	for _, bs := range edgeindex.Edges(0, nbtrees) {
+		// Kept: frequency strictly greater than the cutoff, or present in every tree
+		// (the frequency itself is compared: int(cutoff*n) rounds e.g. 0.58*50 down to 28)
+		if float64(bs.val.Count)/float64(nbtrees) <= cutoff && bs.val.Count != nbtrees {
+			continue
+		}
 		names := make([]string, 0, bs.key.Bitset().Count())
 		for _, n := range alltips {
 			if idx, err := startree.TipIndex(n); err != nil {
